@@ -184,7 +184,7 @@ META["C20"] = {
 META["C18"] = {
     "budget": {"quick": 25, "thorough": 600},
     "rule": "one run = a source and a target machine (no relations, no vetoing handlers) piped with one of Bind / BindMany / BindErr / BindAny / BindReady / BindConnected / flat Add+Remove pipes, the target handed to the binder behind an am.Api proxy whose EvAdd/EvRemove/Set are scheduling points, 1..2 tasks issuing bursts of Add/Remove/Toggle (AddErr for BindErr) on the piped source states, Multi states in a quarter of the runs; non-trivial = every run; distinct = distinct event-log hashes",
-    "components": {"real": MACHINE_REAL + ["pkg/states/pipes"], "stub": ["in a quarter of the runs the target is a network machine: the real target sits behind a real rpc server, the pipes talk to the client's NetworkMachine over the simulated network (instant delivery, optionally stalled while the source toggles)"]},
+    "components": {"real": MACHINE_REAL + ["pkg/states/pipes", "pkg/rpc Server / Client / NetworkMachine (in the quarter of the runs whose target is a network machine: the real target sits behind a real rpc server and the pipes talk to the client's NetworkMachine)"], "stub": ["for network-machine targets the network is verifsim/simnet with instant delivery, optionally stalled while the source toggles"]},
     "assumptions": [
         "the target never vetoes (no relations, no negotiation handlers), as the statement requires; in a third of the runs it is busy with transitions of its own (a slow final handler of a state of its own), so forwarded mutations queue up behind them",
         "joint quiescence: both queues empty, no pipe goroutine parked, 5 s of fake time",
